@@ -86,6 +86,10 @@ type Stream struct {
 	// RequestCtx to another stream while the handler is still writing to it.
 	handlerRunning bool
 
+	// resetByUs is set when this end sent RST_STREAM for the stream. The peer
+	// may have more frames for it in flight, which are to be dropped quietly.
+	resetByUs bool
+
 	// abandoned is set when the stream was closed, by a reset or a timeout,
 	// while its handler was still running. Whatever the handler produces is
 	// dropped, and the stream is recycled when it reports back.
@@ -146,6 +150,7 @@ func NewStream(id uint32, win int32) *Stream {
 	strm.responded = false
 	strm.handlerRunning = false
 	strm.abandoned = false
+	strm.resetByUs = false
 	strm.origType = 0
 	strm.headerListSize = 0
 
